@@ -32,6 +32,8 @@ pub enum ErrHandler {
     Clobbers,
     /// `probe err_h; simexit 4`
     Failing,
+    /// `probe err_h; exit M`: the shell ends with M at the first failing command
+    Exits(u8),
 }
 
 #[derive(Clone, Debug, Serialize, Deserialize, PartialEq)]
@@ -161,6 +163,7 @@ impl Renderer {
             Node::TrapErr(h) => match h {
                 ErrHandler::Clobbers => "trap \"probe err_h; true\" ERR".to_string(),
                 ErrHandler::Failing => "trap \"probe err_h; simexit 4\" ERR".to_string(),
+                ErrHandler::Exits(m) => format!("trap \"probe err_h; exit {m}\" ERR"),
             },
             Node::Term(c) => match c {
                 Cause::Exit(Some(n)) => format!("exit {n}"),
@@ -198,6 +201,12 @@ struct MState {
     exit_trap: Option<Handler>,
     errexit: bool,
     depth: u32,
+    /// an ERR handler that calls `exit m` is installed
+    err_exit: Option<u8>,
+    /// an ERR handler whose last command fails with 4 is installed (under errexit the shell
+    /// then ends inside the handler with that status, as in bash)
+    err_failing: bool,
+    in_func: bool,
 }
 
 struct Model {
@@ -222,6 +231,16 @@ impl Model {
 
     fn fail_point(&mut self, st: &mut MState, s: u8) -> Flow {
         st.status = s;
+        // the ERR trap fires where errexit would apply; it is not inherited by functions and
+        // subshell-like contexts (no errtrace here)
+        if s != 0 && !st.in_func && st.depth == 0 {
+            if let Some(m) = st.err_exit {
+                return Flow::Terminated(Known::Exactly(m));
+            }
+            if st.err_failing && st.errexit {
+                return Flow::Terminated(Known::Exactly(4));
+            }
+        }
         if s != 0 && st.errexit {
             return Flow::Terminated(Known::Exactly(s));
         }
@@ -293,7 +312,10 @@ impl Model {
                 let _ = self.id();
                 // the function definition is itself a command that succeeds
                 st.status = 0;
+                let was_in_func = st.in_func;
+                st.in_func = true;
                 let f = self.block(b, st, record, capture);
+                st.in_func = was_in_func;
                 if let Flow::Terminated(k) = f {
                     return Flow::Terminated(k);
                 }
@@ -308,6 +330,8 @@ impl Model {
             Node::Subshell(b) => {
                 let mut sub = st.clone();
                 sub.exit_trap = None;
+                sub.err_exit = None;
+                sub.err_failing = false;
                 sub.depth += 1;
                 // probes inside run at depth > 0: not part of the main sequence
                 let f = self.block(b, &mut sub, false, capture);
@@ -325,6 +349,8 @@ impl Model {
                 let _ = self.id();
                 let mut sub = st.clone();
                 sub.exit_trap = None;
+                sub.err_exit = None;
+                sub.err_failing = false;
                 sub.errexit = false;
                 sub.depth += 1;
                 let f = self.block(b, &mut sub, false, true);
@@ -341,6 +367,8 @@ impl Model {
             Node::Bg(b) => {
                 let mut sub = st.clone();
                 sub.exit_trap = None;
+                sub.err_exit = None;
+                sub.err_failing = false;
                 sub.depth += 1;
                 let _ = self.block(b, &mut sub, false, capture);
                 st.status = 0;
@@ -364,8 +392,12 @@ impl Model {
                 }
                 Flow::Continue
             }
-            Node::TrapErr(_) => {
+            Node::TrapErr(h) => {
                 st.status = 0;
+                if st.depth == 0 {
+                    st.err_exit = if let ErrHandler::Exits(m) = h { Some(*m) } else { None };
+                    st.err_failing = *h == ErrHandler::Failing;
+                }
                 Flow::Continue
             }
             Node::Term(c) => match c {
@@ -385,11 +417,11 @@ impl Model {
                 Cause::Nounset | Cause::ParamError => Flow::Terminated(Known::SomeFailure),
                 Cause::RedirectError => {
                     st.errexit = true;
-                    Flow::Terminated(Known::Exactly(1))
+                    self.fail_point(st, 1)
                 }
                 Cause::UnknownCommand => {
                     st.errexit = true;
-                    Flow::Terminated(Known::Exactly(127))
+                    self.fail_point(st, 127)
                 }
             },
         }
@@ -407,7 +439,7 @@ pub struct Expected {
 
 pub fn expected(case: &Case) -> Expected {
     let mut m = Model { next: 0, events: vec![], stdout: String::new(), inexact_status: false };
-    let mut st = MState { status: 0, exit_trap: None, errexit: false, depth: 0 };
+    let mut st = MState { status: 0, exit_trap: None, errexit: false, depth: 0, err_exit: None, err_failing: false, in_func: false };
     let f = m.block(&case.program, &mut st, true, false);
     let term_status = match f {
         Flow::Terminated(Known::Exactly(s)) => Some(s),
@@ -431,6 +463,10 @@ pub fn expected(case: &Case) -> Expected {
 // generation
 
 fn gen_block(rng: &mut Rng, depth: u32, main_ctx: bool, in_eval: bool, budget: &mut i32, term: &mut bool) -> Vec<Node> {
+    gen_block2(rng, depth, main_ctx, in_eval, false, budget, term)
+}
+
+fn gen_block2(rng: &mut Rng, depth: u32, main_ctx: bool, in_eval: bool, in_func: bool, budget: &mut i32, term: &mut bool) -> Vec<Node> {
     let n = rng.range(1, 3);
     let mut out = vec![];
     for _ in 0..n {
@@ -452,11 +488,15 @@ fn gen_block(rng: &mut Rng, depth: u32, main_ctx: bool, in_eval: bool, budget: &
                 5 if !in_eval => Handler::ReinstallsItself,
                 _ => Handler::ProbeOnly,
             }),
-            6 if main_ctx => {
+            6 if main_ctx && !(in_func && rng.below(1) == 0) => {
                 if rng.below(3) == 0 {
                     if rng.below(3) == 0 { Node::TrapExitIgnore } else { Node::TrapExitRemove }
                 } else {
-                    Node::TrapErr(if rng.below(2) == 0 { ErrHandler::Clobbers } else { ErrHandler::Failing })
+                    Node::TrapErr(match rng.below(5) {
+                        0..=1 => ErrHandler::Clobbers,
+                        2..=3 => ErrHandler::Failing,
+                        _ => ErrHandler::Exits(*rng.pick(&[0u8, 8, 9])),
+                    })
                 }
             }
             7 if main_ctx && !*term && rng.below(3) == 0 => {
@@ -471,12 +511,12 @@ fn gen_block(rng: &mut Rng, depth: u32, main_ctx: bool, in_eval: bool, budget: &
                     _ => Cause::UnknownCommand,
                 })
             }
-            8 => Node::If(gen_block(rng, depth + 1, main_ctx, in_eval, budget, term)),
-            9 => Node::For(rng.range(1, 2) as u8, gen_block(rng, depth + 1, main_ctx, in_eval, budget, term)),
-            10..=11 => Node::Func(gen_block(rng, depth + 1, main_ctx, in_eval, budget, term)),
-            12 if !in_eval => Node::Eval(gen_block(rng, depth + 1, main_ctx, true, budget, term)),
-            13 => Node::Source(gen_block(rng, depth + 1, main_ctx, in_eval, budget, term)),
-            14 => Node::Brace(gen_block(rng, depth + 1, main_ctx, in_eval, budget, term)),
+            8 => Node::If(gen_block2(rng, depth + 1, main_ctx, in_eval, in_func, budget, term)),
+            9 => Node::For(rng.range(1, 2) as u8, gen_block2(rng, depth + 1, main_ctx, in_eval, in_func, budget, term)),
+            10..=11 => Node::Func(gen_block2(rng, depth + 1, main_ctx, in_eval, true, budget, term)),
+            12 if !in_eval => Node::Eval(gen_block2(rng, depth + 1, main_ctx, true, in_func, budget, term)),
+            13 => Node::Source(gen_block2(rng, depth + 1, main_ctx, in_eval, in_func, budget, term)),
+            14 => Node::Brace(gen_block2(rng, depth + 1, main_ctx, in_eval, in_func, budget, term)),
             15 => {
                 let mut t = true; // no real termination inside; `exit` there ends the subshell only
                 let mut b = gen_block(rng, depth + 1, false, in_eval, budget, &mut t);
@@ -550,6 +590,50 @@ impl C16 {
             if rng.below(3) == 0 {
                 break;
             }
+        }
+        // an ERR handler that exits is kept apart from the known shapes (ERR firing for `exit n`,
+        // `exit` inside the EXIT handler) and from handlers that fail on purpose
+        fn has_err_failing(ns: &[Node]) -> bool {
+            ns.iter().any(|n| match n {
+                Node::TrapErr(ErrHandler::Exits(_) | ErrHandler::Failing) => true,
+                Node::If(b) | Node::Eval(b) | Node::Brace(b) | Node::Func(b) | Node::Source(b) | Node::For(_, b) | Node::Subshell(b) | Node::CmdSubst(b) | Node::Bg(b) => has_err_failing(b),
+                _ => false,
+            })
+        }
+        // (known finding: the ERR trap also fires for exit-type control flow, so a shell that
+        // is leaving a function because of errexit would run the handler at the call site)
+        fn tame_in_funcs(ns: &mut [Node], in_func: bool) {
+            for n in ns.iter_mut() {
+                match n {
+                    Node::Term(Cause::Errexit(_) | Cause::RedirectError | Cause::UnknownCommand | Cause::Nounset | Cause::ParamError) if in_func => *n = Node::Probe,
+                    Node::Func(b) => tame_in_funcs(b, true),
+                    Node::If(b) | Node::Eval(b) | Node::Brace(b) | Node::Source(b) | Node::For(_, b) | Node::Subshell(b) | Node::CmdSubst(b) | Node::Bg(b) => tame_in_funcs(b, in_func),
+                    _ => {}
+                }
+            }
+        }
+        if has_err_failing(&program) {
+            tame_in_funcs(&mut program, false);
+        }
+        fn has_err_exit(ns: &[Node]) -> bool {
+            ns.iter().any(|n| match n {
+                Node::TrapErr(ErrHandler::Exits(_)) => true,
+                Node::If(b) | Node::Eval(b) | Node::Brace(b) | Node::Func(b) | Node::Source(b) | Node::For(_, b) | Node::Subshell(b) | Node::CmdSubst(b) | Node::Bg(b) => has_err_exit(b),
+                _ => false,
+            })
+        }
+        fn tame(ns: &mut [Node]) {
+            for n in ns.iter_mut() {
+                match n {
+                    Node::Term(Cause::Exit(_)) => *n = Node::Term(Cause::Exit(Some(0))),
+                    Node::TrapExit(Handler::Exits(_) | Handler::Failing) => *n = Node::TrapExit(Handler::ProbeOnly),
+                    Node::If(b) | Node::Eval(b) | Node::Brace(b) | Node::Func(b) | Node::Source(b) | Node::For(_, b) | Node::Subshell(b) | Node::CmdSubst(b) | Node::Bg(b) => tame(b),
+                    _ => {}
+                }
+            }
+        }
+        if has_err_exit(&program) {
+            tame(&mut program);
         }
         let front_end = match rng.below(3) {
             0 => FrontEnd::Stdin,
